@@ -68,7 +68,9 @@ func runC08(rc *RunCtx) (*Violation, error) {
 	}
 	// grace window shorter than single operations
 	spec.GCGrace = []time.Duration{time.Millisecond, 50 * time.Millisecond, time.Second}[g.Int(3)]
-	spec.GCInterval = []time.Duration{200 * time.Millisecond, time.Second, 3 * time.Second}[g.Int(3)]
+	// in a third of the runs the GC (which also reconciles registry reference
+	// counts) does not get to run during the history at all
+	spec.GCInterval = []time.Duration{200 * time.Millisecond, time.Second, 3 * time.Second, time.Hour, time.Hour}[g.Int(5)]
 	w, err := rc.World(spec)
 	if err != nil {
 		return nil, err
@@ -141,7 +143,11 @@ func runC08(rc *RunCtx) (*Violation, error) {
 	// quiescent point: everything committed must be fully readable, also after more GC sweeps
 	var final *Violation
 	chk := rc.S.Go("final-check", func(t *sim.Task) {
-		rc.S.Sleep(spec.GCGrace + 2*spec.GCInterval + time.Second)
+		settle := spec.GCGrace + 2*spec.GCInterval + time.Second
+		if spec.GCInterval >= time.Hour {
+			settle = 40 * time.Second // the loop wakes at least every 30 s after writes
+		}
+		rc.S.Sleep(settle)
 		for _, d := range drivers {
 			if v := d.CheckAll(); v != nil {
 				final = v
